@@ -1244,15 +1244,12 @@ class Repo:
         return [c for c in self.all_classes() if method in c.methods]
 
 
-_LOCALS_CACHE = {}
-
-
 def local_names(fi):
     """Names bound in the function's own scope (params, assignments, for targets, with/except
     targets, imports, nested defs) minus those declared global/nonlocal."""
-    key = id(fi.node)
-    if key in _LOCALS_CACHE:
-        return _LOCALS_CACHE[key]
+    cached = getattr(fi.node, '_local_names', None)      # kept on the node itself: ids of freed nodes are reused
+    if cached is not None:
+        return cached
     names = set(fi.all_params)
     declared = set()
     for n in own_nodes(fi.node):
@@ -1270,7 +1267,7 @@ def local_names(fi):
     # comprehension targets live in their own scope in py3; they are not function locals, but
     # treating them as locals is harmless for resolution purposes
     names -= declared
-    _LOCALS_CACHE[key] = names
+    fi.node._local_names = names
     return names
 
 
